@@ -676,7 +676,11 @@ func (s *UtxoStore) ScriptAddressBalance(tx mwdb.ReadTransaction, scripts map[st
 	nsUnspent := tx.FetchBucket(s.bucketMeta.nsUnspent)
 	nsCredits := tx.FetchBucket(s.bucketMeta.nsCredits)
 
-	iter := nsUnspent.NewIterator(mwdb.BytesPrefix([]byte(s.ksmgr.CurrentKeystore().Name())))
+	walletId, err := currentWalletName(s.ksmgr)
+	if err != nil {
+		return nil, err
+	}
+	iter := nsUnspent.NewIterator(mwdb.BytesPrefix([]byte(walletId)))
 	defer iter.Release()
 
 	cred := &credit{
@@ -782,7 +786,11 @@ func (s *UtxoStore) ScriptAddressUnspents(tx mwdb.ReadTransaction, scriptAddrs m
 	var op wire.OutPoint
 	var block BlockMeta
 
-	iter := nsUnspent.NewIterator(mwdb.BytesPrefix([]byte(s.ksmgr.CurrentKeystore().Name())))
+	walletId, err := currentWalletName(s.ksmgr)
+	if err != nil {
+		return nil, err
+	}
+	iter := nsUnspent.NewIterator(mwdb.BytesPrefix([]byte(walletId)))
 	defer iter.Release()
 
 	for iter.Next() {
@@ -1203,4 +1211,15 @@ func (s *UtxoStore) ExistCreditFromTx(rtx mwdb.ReadTransaction, hash *wire.Hash)
 		return false, err
 	}
 	return exist, nil
+}
+
+// currentWalletName returns the id of the wallet in use. The background removal
+// of that wallet unsets it at any moment, also in the middle of a request that
+// had found it set.
+func currentWalletName(ksmgr *keystore.KeystoreManager) (string, error) {
+	am := ksmgr.CurrentKeystore()
+	if am == nil {
+		return "", keystore.ErrCurrentKeystoreNotFound
+	}
+	return am.Name(), nil
 }
